@@ -402,13 +402,24 @@ func TestVerifC06(t *testing.T) {
 						var b strings.Builder
 						b.WriteString("on:\n  workflow_call:\n    inputs:\n      flag:\n        type: " + callTy + "\n")
 						if extra {
-							b.WriteString("      other:\n        type: string\n")
+							// also: the default of a call input reads an input that only the dispatch
+							// event declares (checked while workflow_call, written first, is visited)
+							b.WriteString("      other:\n        type: string\n        default: ${{ inputs.donly }}\n")
 						}
 						b.WriteString("  workflow_dispatch:\n    inputs:\n      flag:\n        description: d\n")
 						if dispatchType != "" {
 							b.WriteString("        type: " + dispatchType + "\n")
 							if dispatchType == "choice" {
 								b.WriteString("        options: [a, b]\n")
+							}
+						}
+						if extra {
+							b.WriteString("      donly:\n        description: d\n")
+							if dispatchType != "" {
+								b.WriteString("        type: " + dispatchType + "\n")
+								if dispatchType == "choice" {
+									b.WriteString("        options: [a, b]\n")
+								}
 							}
 						}
 						b.WriteString("jobs:\n  a:\n    runs-on: ubuntu-latest\n    steps:\n      - run: echo ${{ " + cons + " }}\n")
